@@ -462,6 +462,58 @@ def stage_leave_corr(ctx: Ctx, progs):
         ctx.tick(('leave-corr', src, ids and W.src[:40], on, tuple(ds)), f'leave-corr:{on}:' + ('send-true' if True in ds else 'quiet'))
         terms.append(t)
         meta.append({'src': src, 'walk_root': type(W.a).__name__, 'on': on, 'decisions': ds, 'real_yields': out})
+    # recurse=False, on='both': models/WalkShallow.v. send(True) at entry yields of the root's children and (rarely) at leaving yields; send(False) only at entry yields of
+    # nodes below the children (at the entry of a node that is the root of a delegated full walk it ends that walk without the leaving yield, as for any walk root)
+    sterms, smeta = [], []
+    for it in range(ctx.scale(80, 800)):
+        src = rng.choice(small)
+        root = fst.FST(src, 'exec')
+        nodes = list(root.walk(True))
+        if len(nodes) > 120:
+            continue
+        W = rng.choice([root] + [f for f in nodes if list(f.walk(True, self_=False, recurse=False))][:40])
+        sub = list(W.walk(True))
+        ids = {id(f): i for i, f in enumerate(sub)}
+        kids_ = {id(c) for c in W.walk(True, self_=False, recurse=False)}
+
+        def enc(f):
+            return f'(Node {ids[id(f)]} [' + '; '.join(enc(c) for c in f.walk(True, self_=False, recurse=False)) + '])'
+        gen = W.walk(True, 'both', recurse=False)
+        out, ds = [], []
+        budget = 2
+        rewalked = set()
+        try:
+            for g in gen:
+                n, leaving = g
+                out.append((ids[id(n)], leaving))
+                if n is W and not leaving and len(out) == 1:
+                    continue            # the root's own entry yield: nothing sent, not a decision of the model
+                r = rng.random()
+                d = None
+                if not leaving and id(n) in kids_ and id(n) not in rewalked and r < 0.45:
+                    d = True
+                elif leaving and budget and r < 0.06 and n is not W:
+                    d = True
+                    budget -= 1
+                    rewalked.add(id(n))
+                elif not leaving and id(n) not in kids_ and id(n) not in rewalked and n is not W and r < 0.15:
+                    d = False
+                ds.append(d)
+                if d is not None:
+                    gen.send(d)
+                if len(out) > 1500:
+                    raise RuntimeError('does not end')
+        except Exception as e:
+            ctx.violation(f'shallow-corr-raise|{type(e).__name__}', 'the iteration raised', {'src': src, 'decisions': ds, 'error': repr(e)[:200]})
+            continue
+        dsl = '[' + '; '.join('None' if d is None else f'Some {cbool(d)}' for d in ds) + ']'
+        exp = '[' + '; '.join(f'({i}, {cbool(l)})' for i, l in out) + ']'
+        sterms.append(f'match shallow 4000 {enc(W)} {dsl} with Some (o, _) => pl_eqb o {exp} | None => false end')
+        smeta.append({'src': src, 'walk_root': type(W.a).__name__, 'recurse': False, 'decisions': ds, 'real_yields': out})
+        ctx.tick(('shallow-corr', src, W.src[:40], tuple(ds)), 'leave-corr:both:recurse=False:' + ('send-true' if True in ds else 'quiet'))
+    sfailed = coq_eval_bools('C15_shallow', LHDR.replace('models.WalkLeave.', 'models.WalkLeave models.WalkShallow.'), sterms, shard=40)
+    ctx.correspondence("models/WalkShallow.v shallow == nodes yielded by the real walk(True, on='both', recurse=False) under the same send() decisions (send(True) at entry yields of the root's children and at leaving yields, send(False) below)",
+                       len(sterms), [smeta[i] for i in sfailed])
     failed = coq_eval_bools('C15_leave', LHDR, terms, shard=40)
     ctx.correspondence("models/WalkLeave.v lrun / brun == nodes yielded by the real walk(True, on='leave' / on='both') under the same send() decisions (unmodified trees, any walk root with children)",
                        len(terms), [meta[i] for i in failed])
